@@ -14,7 +14,7 @@ def run(ctx):
                 "supported away from the boundary, closed-system solves (implicit, explicit, periodic / no-flux)")
     ctx.prove("C01")
     from suites import symsuite
-    run_suites(ctx, ["symbolic"], runner=symsuite.run_suite, relevant=symsuite.relevant_for(['diffusion', 'central', 'divergence', 'upwind']))
+    run_suites(ctx, ["symbolic"], runner=symsuite.run_suite, relevant=symsuite.relevant_for(['diffusion', 'central', 'divergence', 'upwind', 'tvd', 'tvdfsarg']))
     from suites import meshsuite
     run_suites(ctx, ["mesh"], runner=meshsuite.run_suite)
     run_suites(ctx, SUITES[1:], relevant=REL)
